@@ -250,7 +250,7 @@ func (eng *Engine) runProperty(cfg *PropConfig, tier string, timeout int, work s
 		}
 		for _, k := range sortedKeys(run.unknownCalls) {
 			if !okUnknown[k] && isModuleFuncKey(k) {
-				run.aborted = "calls " + k + ", a helper without a contract that cannot be executed in place (it has loops); its effect is unknown"
+				run.aborted = "calls " + k + ", a helper without a contract that cannot be executed in place (it has loops, closures, or calls functions that have neither a contract nor an entry in externals.spec); its effect is unknown"
 				break
 			}
 		}
